@@ -67,4 +67,14 @@ CLAIMS["C12"] = {
     "technique": "CFG pending-slot discharge paths + branch-fact dominance + immutability (who-may-write) check (AST)",
 }
 
+CLAIMS["C13"] = {
+    "text": "Decides that every trim of the last w-1 columns uses the bound -w+1 and treats w == 1 (where the bound would be 0), that the generic k-mer weights, both KmerEncoding.encode "
+            "paths and KmerEncoding.to_string implement the little-endian base-|A| number (constant-evaluated for k in 1..4, |A| in 2..5/20 over all codes), that the 2-bit packed path is "
+            "chosen exactly for |A| == 4, that the minimizer window algebra composes to the identity and takes a minimum over the k-mer axis, that convolved flat data is re-wrapped with the "
+            "shape of the same object that was flattened, that chunked counting covers every value with consecutive non-overlapping chunks, that the motif-score accumulation statement "
+            "adds matrix[letter at i+offset][offset] into position i, and that any dict memo in these modules is keyed by everything its value depends on.",
+    "note": _NOTE + "Not decided: per-window values on concrete sequences, npstructures ragged slicing, BitArray internals.",
+    "technique": "linear forms of slice bounds + constant evaluation of hash/renderer over small finite domains + memo-key dependency analysis (AST)",
+}
+
 NOT_APPLICABLE = {}
